@@ -275,6 +275,25 @@ func init() {
 					}
 				}
 			})
+			// `s.state = state{...}` / `s.state = newHeightState(h)`: every field is (re)written — named fields with the
+			// literal's values, the others with their zero value
+			whole := false
+			allInstrs(f, func(in ssa.Instruction) {
+				st, ok := in.(*ssa.Store)
+				if !ok {
+					return
+				}
+				fa, ok := st.Addr.(*ssa.FieldAddr)
+				if !ok || fieldName(fa.X.Type(), fa.Field) != "state" {
+					return
+				}
+				if lf := structLiteralFields(st.Val, 0); lf != nil {
+					whole = true
+					for k, v := range lf {
+						got[k] = v
+					}
+				}
+			})
 			for k, v := range want {
 				gv, ok := got[k]
 				okv := ok && (v == "" || gv == v)
@@ -284,7 +303,7 @@ func init() {
 				c.check(okv, "commit-reset", "doCommitValue resets "+k, p.Pos(fnPos(f)), "reset on commit", fmt.Sprintf("commit does not reset %s (got %q)", k, gv))
 			}
 			c.check(findSite(f, "StartNewHeight") != nil, "commit-reset", "doCommitValue → voteCounter.StartNewHeight", p.Pos(fnPos(f)), "vote counter moves to the next height", "commit does not advance the vote counter")
-			c.check(findSite(f, "resetState") != nil, "commit-reset", "doCommitValue → resetState(0)", p.Pos(fnPos(f)), "round state reset", "commit does not reset the round state")
+			c.check(findSite(f, "resetState") != nil || whole, "commit-reset", "doCommitValue → resetState(0)", p.Pos(fnPos(f)), "round state reset", "commit does not reset the round state")
 		} else {
 			c.und("commit-reset", "doCommitValue", "", "anchor not found")
 		}
@@ -491,6 +510,17 @@ func c12HeightScoped(c *Ctx) {
 					if o := ownerOf(fa.X.Type()); o != "" {
 						if _, fresh := fa.X.(*ssa.Alloc); !fresh {
 							note(o, fieldName(fa.X.Type(), fa.Field), fn, p.Pos(posOf(in, fn)))
+							// a whole-struct assignment to a field that is itself one of the tracked structs writes each of
+							// its fields
+							if ptr, isPtr := fa.Type().(*types.Pointer); isPtr {
+								if io := ownerOf(ptr.Elem()); io != "" {
+									if stt, isSt := types.Unalias(ptr.Elem()).Underlying().(*types.Struct); isSt {
+										for i := 0; i < stt.NumFields(); i++ {
+											note(io, stt.Field(i).Name(), fn, p.Pos(posOf(in, fn)))
+										}
+									}
+								}
+							}
 						}
 					}
 				}
